@@ -76,6 +76,14 @@ def survey_cases(prop):
     """Ground truth of the authoring-time survey: mutants whose dynamic oracle recorded a violation of `prop`."""
     out = []
     base = os.path.join(VERIF, "notes", "authoring")
+    # C11: the export oracle wrapped its own output parsers in the same try block as the export, so its "C11" verdicts
+    # include parser failures; c11_reclassified.jsonl (export-only driver) says which mutants make the *library* raise
+    reclass = {}
+    rp = os.path.join(base, "c11_reclassified.jsonl")
+    if prop == "C11" and os.path.exists(rp):
+        for line in open(rp):
+            r = json.loads(line)
+            reclass[(r["file"], r["line"], r["desc"])] = r["library_raises"]
     for fn in ("survey_tested_modules.jsonl", "survey_untested_modules.jsonl"):
         p = os.path.join(base, fn)
         if not os.path.exists(p):
@@ -87,6 +95,8 @@ def survey_cases(prop):
             verd = " ".join(str(r.get(k, "")) for k in ("engine", "vpsc", "scale", "export"))
             props = set(re.findall(r"\bC\d\d\b", verd))
             if prop in props:
+                if reclass and not reclass.get((r["file"], r["line"], r["desc"]), True):
+                    continue
                 out.append((r["file"], r["line"], r["desc"], verd.strip()[:80]))
     return out
 
